@@ -111,6 +111,19 @@ func gen(tier string, seed int64) []mon.Case {
 			}
 		}
 	}
+	// write, close, slow peer / a write stuck in the implementation when Close is called
+	for rep := 0; rep < ureps; rep++ {
+		for _, t := range []string{"telnet", "standard-shell", "standard-netconf"} {
+			for i, sz := range []int{5, 64 << 10, 300 << 10, 1 << 20} {
+				add(Desc{Kind: "writeclose", T: t, ReadSize: 8192, Size: sz, How: []string{"close", "close-noforce"}[(i+rep)%2]})
+			}
+		}
+		for _, t := range []string{"system", "system-ssh", "standard-shell", "telnet"} {
+			for _, how := range []string{"close", "close-noforce"} {
+				add(Desc{Kind: "stuckwrite", T: t, ReadSize: 8192, How: how})
+			}
+		}
+	}
 	// end-to-end differential
 	ecli, enc := 4, 3
 	if tier == "thorough" {
@@ -154,7 +167,8 @@ func init() {
 			"duplex, lockstep and up-then-down schedules; every transfer ends with Close(true) against the blocked reader. Unblock cases: Close(true) and peer-gone " +
 			"for the same transports plus the system transport with the real ssh client; re-open cycles (3 x Open/transfer/blocked read/Close on ONE Transport object, forced and " +
 			"unforced close; peer must see the end, the child must be gone). Silence after write: with socket timeouts of 300-1000 ms the peer stays silent for 1.5x / 3x the timeout after a client write, then sends (twice), reader parked in Read. " +
-			"Last words: the peer writes a tail (smaller / larger than the read size) and ends the session in an orderly way while nobody reads for 0.5-1 s; the whole tail must come out of Read before the error. Telnet early bursts: the peer sends a burst longer than the read size right after accept (inside the " +
+			"Last words: the peer writes a tail (smaller / larger than the read size) and ends the session in an orderly way while nobody reads for 0.5-1 s; the whole tail must come out of Read before the error. Write-close-slow-peer (telnet, standard): 5 B .. 1 MiB written while the peer does not read, Close, then the peer reads to the end and must get every byte. " +
+			"Stuck write: the peer never reads until a Write is stuck in the implementation, then Close(true) with a parked Read / Close(false) without: Close and the parked Read must return within 5 s (the stuck Write is not judged). Telnet early bursts: the peer sends a burst longer than the read size right after accept (inside the " +
 			"negotiation window, with/without option negotiations). End-to-end: generated CLI and NETCONF (1.0/1.1) sessions over the real " +
 			"transports vs the ideal devsim pipe. Non-trivial = payload larger than the read size, or an unblock case, or an end-to-end differential. Distinct = distinct descriptor.",
 		Assumptions: []string{
@@ -182,6 +196,10 @@ func init() {
 				return runSilence(d)
 			case "lastwords":
 				return runLastWords(d)
+			case "writeclose":
+				return runWriteClose(d)
+			case "stuckwrite":
+				return runStuckWrite(d)
 			case "e2e-cli":
 				return runE2ECLI(d)
 			case "e2e-netconf":
